@@ -471,6 +471,7 @@ func wrChurn(t *tr.W, rnd *rand.Rand, c wrCfg, secs float64, idx int) string {
 	}
 	names := []string{"w1", "w2"}
 	c.Cfg.Writers = 2
+	c.Cfg.Delta = idx%8 >= 4 // half of the scenarios back up with delta interleaving
 	t.Emit(tr.Ev{"e": "WrInit", "procs": names, "cfg": c.Cfg, "nk": c.NK, "churn": true})
 	atomic.StoreInt32(&memOn, 1)
 	d := nh.Open(c.Cfg)
@@ -615,27 +616,39 @@ func wrChurn(t *tr.W, rnd *rand.Rand, c wrCfg, secs float64, idx int) string {
 						t.Emit(tr.Ev{"e": "RScan", "sn": sn1, "items": items, "by": "iterator"})
 					}
 				default:
-					if c.Backup != "" && r == 0 && cs.log {
+					if c.Backup != "" && r == 0 {
 						s1.Open()
 						os.RemoveAll(c.Backup)
-						err := d.StoreToDisk(c.Backup, s1, 1+rr.Intn(3), nil)
-						ev := tr.Ev{"e": "Restore", "sn": sn1, "stored": err == nil, "loaded": false, "items": [][2]int{}, "count": 0}
-						if err == nil {
-							rc := c.Cfg
-							rc.Writers, rc.Guard, rc.MM = 1, false, false
-							memWas := atomic.SwapInt32(&memOn, 0)
-							nd := nh.Open(rc)
-							rs, lerr := nd.LoadFromDisk(c.Backup, 2, nil)
-							if lerr == nil {
-								nd.RefreshStore()
-								it2, _ := nd.Scan(rs, 0)
-								ev["loaded"], ev["items"], ev["count"] = true, it2, rs.Count()
-								rs.Close()
+						// the item handed to the callback must stay readable while the callback runs (with delta interleaving
+						// the snapshot is not pinned: only the scan's accessor token keeps collected items from being freed)
+						var sink byte
+						err := d.StoreToDisk(c.Backup, s1, 1+rr.Intn(3), func(e *nitro.ItemEntry) {
+							b := e.Item().Bytes()
+							if rr.Intn(8) == 0 {
+								time.Sleep(30 * time.Microsecond)
 							}
-							nd.Shutdown()
-							atomic.StoreInt32(&memOn, memWas)
+							sink += b[len(b)-1] + e.Item().Bytes()[0]
+						})
+						_ = sink
+						if cs.log {
+							ev := tr.Ev{"e": "Restore", "sn": sn1, "stored": err == nil, "loaded": false, "items": [][2]int{}, "count": 0}
+							if err == nil {
+								rc := c.Cfg
+								rc.Writers, rc.Guard, rc.MM = 1, false, false
+								memWas := atomic.SwapInt32(&memOn, 0)
+								nd := nh.Open(rc)
+								rs, lerr := nd.LoadFromDisk(c.Backup, 2, nil)
+								if lerr == nil {
+									nd.RefreshStore()
+									it2, _ := nd.Scan(rs, 0)
+									ev["loaded"], ev["items"], ev["count"] = true, it2, rs.Count()
+									rs.Close()
+								}
+								nd.Shutdown()
+								atomic.StoreInt32(&memOn, memWas)
+							}
+							t.Emit(ev)
 						}
-						t.Emit(ev)
 					}
 				}
 				s1.Close()
